@@ -92,6 +92,7 @@ type Interp struct {
 	Funcs      map[string]int64
 	globals    map[*ssa.Global]*Cell
 	stored     map[*ssa.Global]bool
+	poisoned   map[*ssa.Global]string
 	pkgInit    map[*ssa.Package]string // "" = running/ok, else reason of incomplete init
 	locks      map[*Cell]*lockState
 	onces      map[*Cell]bool
@@ -117,6 +118,7 @@ func NewInterp(cfg *Config, ex *Explorer) *Interp {
 func (in *Interp) resetPath() {
 	in.globals = map[*ssa.Global]*Cell{}
 	in.stored = map[*ssa.Global]bool{}
+	in.poisoned = map[*ssa.Global]string{}
 	in.pkgInit = map[*ssa.Package]string{}
 	in.locks = map[*Cell]*lockState{}
 	in.onces = map[*Cell]bool{}
@@ -239,11 +241,19 @@ func (in *Interp) get(fr *frame, v ssa.Value) Value {
 // ---------- globals and package init ----------
 
 func (in *Interp) global(g *ssa.Global) *Cell {
-	if c, ok := in.globals[g]; ok {
-		return c
-	}
 	if g.Pkg != nil {
 		in.ensureInit(g.Pkg)
+		// A package-level variable may only be read when its initialiser was really executed: packages loaded
+		// from export data have no init body, and an init that could not be run to completion leaves variables
+		// in an unknown state. Silently reading a zero value there would be unsound.
+		if in.initMode == 0 && !in.stored[g] {
+			if why, bad := in.pkgInit[g.Pkg]; bad && why != "" {
+				unsupported("package-level variable %s read, but the initialiser of package %s was not executed (%s); add the package to //vx:bodies", g.Name(), g.Pkg.Pkg.Path(), why)
+			}
+		}
+		if why, bad := in.poisoned[g]; bad && in.initMode == 0 {
+			unsupported("package-level variable %s has an initialiser the engine cannot evaluate (%s)", g.Name(), why)
+		}
 	}
 	if c, ok := in.globals[g]; ok {
 		return c
@@ -270,6 +280,7 @@ func (in *Interp) ensureInit(pkg *ssa.Package) {
 	}
 	initFn := pkg.Func("init")
 	if initFn == nil || initFn.Blocks == nil {
+		in.pkgInit[pkg] = "no source loaded"
 		return
 	}
 	in.initMode++
@@ -531,7 +542,17 @@ func (in *Interp) run(fr *frame, b *ssa.BasicBlock, prev *ssa.BasicBlock) Value 
 			case *ssa.Panic:
 				panic(goPanic{in.get(fr, x.X)})
 			case *ssa.Store:
-				in.store(in.get(fr, x.Addr), in.get(fr, x.Val))
+				val := in.get(fr, x.Val)
+				if pz, isPoison := val.(poison); isPoison {
+					if g, ok := x.Addr.(*ssa.Global); ok {
+						in.poisoned[g] = pz.why
+					}
+					break
+				}
+				if _, isPoison := in.get(fr, x.Addr).(poison); isPoison {
+					break
+				}
+				in.store(in.get(fr, x.Addr), val)
 				if g, ok := x.Addr.(*ssa.Global); ok {
 					in.stored[g] = true
 				}
